@@ -400,8 +400,13 @@ class Enum:
                 # literal condition (cfg!(..)): only one branch exists
                 return self.paths(e["t"] if cl["b"] else e.get("e"))
             res = []
-            if matches_as_eq(cl) is not None:
-                cps = self.paths(cl["e"])       # only the scrutinee is evaluated; the test itself becomes a branch event below
+            # leading `!`s: the value a `matches!`-style condition computes on a path is negated once per `!`
+            core_node, negs = cl, 0
+            while isinstance(core_node, dict) and core_node.get("k") == "un" and core_node.get("op") == "Not":
+                core_node = thir.peel(core_node["e"])
+                negs += 1
+            if matches_as_eq(core_node) is not None:
+                cps = self.paths(core_node["e"])       # only the scrutinee is evaluated; the test itself becomes a branch event below
             else:
                 cps = self.paths(c)
             is_let = isinstance(c, dict) and c.get("k") == "letx"
@@ -411,7 +416,7 @@ class Enum:
                     continue
                 if is_let or p.val is True or p.val is False:
                     # the condition's own path already fixes its truth (if-let, or a `matches!`-style match with literal bool arms)
-                    branches = [p.val] if (p.val is True or p.val is False) else [True, False]
+                    branches = [(p.val if negs % 2 == 0 else (not p.val))] if (p.val is True or p.val is False) else [True, False]
                     heads = [(b, p) for b in branches]
                 else:
                     # leading negations are folded into the truth value: the event never starts with "Not "
